@@ -253,7 +253,9 @@ ScaleBoundary(M, sol, ds, k) ==
                    !.ub = [r \in RIdx(M) |-> IF f(r) = 2 /\ FinUB(M, r) THEN (M.ub[r] + 1) \div 2 ELSE M.ub[r]]],
    sol |-> [r \in RIdx(M) |-> sol[r] \div f(r)]]
 NoSum == [k |-> "none", idx |-> 0, solgiven |-> TRUE, sol |-> <<>>, fvak |-> "none", fnum |-> 1, fden |-> 1,
-          frame |-> <<>>, scaled |-> FALSE]
+          frame |-> <<>>, scaled |-> FALSE,
+          passpfba |-> FALSE,     \* the caller passes the Solution returned by pfba(model) explicitly
+          stale |-> FALSE, c2 |-> <<>>]    \* the model objective is changed to c2 AFTER the solution was obtained
 DrawFrame(M, sol, ds, k) ==
   [r \in RIdx(M) |-> <<sol[r] - (ds[k + r] % 3), sol[r] + ((ds[k + r] \div 3) % 3)>>]
 BuildC20(d) ==
@@ -264,7 +266,13 @@ BuildC20(d) ==
       sol == RefFor(A, Weights(NR(M), ds, 0))
       any == RefFor(F, Weights(NR(M), ds, 8))                 \* a feasible, not necessarily optimal solution
       sc == ScaleBoundary(M, sol, ds, 16)
-      base == [NoSum EXCEPT !.sol = sol, !.frame = [r \in RIdx(M) |-> <<0, 0>>]]
+      base == [NoSum EXCEPT !.sol = sol, !.frame = [r \in RIdx(M) |-> <<0, 0>>], !.c2 = M.c]
+      \* solutions whose objective_value is NOT the current objective at their fluxes
+      o2 == (ds[41] % NR(M)) + 1
+      cnew == [r \in RIdx(M) |-> IF r = o2 THEN 1 + (ds[42] % 2) ELSE IF r = ((o2 % NR(M)) + 1) THEN (ds[43] % 3) - 1 ELSE 0]
+      foreign == <<[base EXCEPT !.k = "model", !.solgiven = FALSE, !.sol = ZeroVec(M), !.passpfba = TRUE],
+                   [base EXCEPT !.k = "model", !.stale = TRUE, !.c2 = cnew],
+                   [base EXCEPT !.k = "model", !.stale = TRUE, !.c2 = cnew, !.sol = any, !.fvak = "frame", !.frame = fr]>>
       fr == DrawFrame(M, sol, ds, 22)
       variants(k, i) ==
         <<[base EXCEPT !.k = k, !.idx = i],
@@ -284,7 +292,7 @@ BuildC20(d) ==
                      \o ConcatAll([q \in 1..Len(used) |->
                                      <<[scbase EXCEPT !.k = "met", !.idx = used[q], !.fvak = IF q % 2 = 0 THEN "none" ELSE "frame",
                                                       !.frame = IF q % 2 = 0 THEN base.frame ELSE scfr]>>])
-  IN [skip |-> FALSE, M |-> M, MS |-> sc.M, calls |-> model \o mets \o rxns \o scaled]
+  IN [skip |-> FALSE, M |-> M, MS |-> sc.M, calls |-> model \o foreign \o mets \o rxns \o scaled]
 
 Build(d) == CASE Prop = "C09" -> BuildC09(d)
               [] Prop = "C06" -> BuildC06(d)
@@ -443,4 +451,10 @@ ThmSummary ==
         /\ (cl.k = "met") => SumFlux(plus) = SumFlux(minus)
         /\ \A x \in rows : x.lo <= x.hi /\ (cl.fvak = "frame" => (x.lo <= x.flux /\ x.flux <= x.hi))
         /\ \A x \in minus : x.flux < 0 \/ (x.flux = 0 /\ x.factor < 0)
+\* the objective value a model summary shows is the CURRENT objective evaluated at the summarised fluxes,
+\* whatever objective_value the Solution object carries (pFBA: total flux; a solution older than the objective)
+ThmSummaryObjective ==
+  Built => \A j \in 1..Len(out.calls) : LET cl == out.calls[j] IN
+     (cl.k = "model" /\ cl.solgiven /\ ~cl.scaled) =>
+        ShownObjective(cl.c2, cl.sol, Dot(out.M.c, cl.sol)) = Dot(cl.c2, cl.sol)
 =============================================================================
